@@ -419,3 +419,12 @@ func Run(ctx *core.Ctx) int {
 	}
 	return ctx.Finish(core.JSONRecheck(ctx.Prop, Eval))
 }
+
+// Universe exposes the universe of a shape to other checks (C05 explores the scheduler on these cache states).
+func Universe(s Shape) (names []string, content map[string][]byte, err error) {
+	u := buildUniverse(s)
+	return u.names, u.content, u.err
+}
+
+// RegisterProgram lets other checks add programs to the shapes this package can build.
+func HasProgram(name string) bool { _, ok := programs[name]; return ok }
